@@ -3,7 +3,9 @@ use crate::runner::{CheckDef, Tier};
 pub mod c07;
 pub mod c08;
 pub mod c09;
+pub mod c10;
 pub mod c11;
+pub mod c16;
 
 pub const ALL: [&str; 19] = [
     "C01", "C02", "C03", "C04", "C05", "C06", "C07", "C08", "C09", "C10", "C11", "C12", "C13", "C14",
@@ -15,7 +17,9 @@ pub fn get(id: &str, tier: Tier) -> Option<CheckDef> {
         "C07" => c07::def(tier),
         "C08" => c08::def(tier),
         "C09" => c09::def(tier),
+        "C10" => c10::def(tier),
         "C11" => c11::def(tier),
+        "C16" => c16::def(tier),
         _ => return None,
     })
 }
